@@ -271,3 +271,46 @@ fn c05f_bcj_reader_interrupted() {
     kani::cover!(true, "end reached");
     core::mem::forget(r);
 }
+
+// C07-C (kernel level): the filter is a pure function of the byte stream: running it over a buffer in two calls (the
+// second call starting where the first one stopped, exactly as BCJReader/BCJWriter feed it) converts the same
+// instructions to the same bytes as one call.  The carried state (pos, prev_mask) is what is being checked.
+fn bcj_kernel_split<const N: usize>(a: Arch, min_first: usize) {
+    let x: [u8; N] = kani::any();
+    let start: u32 = kani::any();
+    kani::assume((start as usize) % align(a) == 0);
+    let enc: bool = kani::any();
+    let mut y1 = x;
+    let mut f1 = mk(a, start as usize, enc);
+    let n1 = f1.code(&mut y1);
+    let c: usize = kani::any();
+    kani::assume(c >= min_first && c <= N);
+    let mut y2 = x;
+    let mut f2 = mk(a, start as usize, enc);
+    let m1 = f2.code(&mut y2[..c]);
+    assert!(m1 <= c);
+    let m2 = f2.code(&mut y2[m1..]);
+    assert!(m1 + m2 <= N);
+    let done = core::cmp::min(n1, m1 + m2);
+    let j: usize = kani::any();
+    kani::assume(j < done);
+    assert!(y1[j] == y2[j], "C07-C: BCJ filter output depends on how the stream was cut into filter calls");
+    assert!(f2.pos.wrapping_sub(f1.pos) == (m1 + m2).wrapping_sub(n1), "C07-C: stream position not advanced by the processed byte count");
+    kani::cover!(m1 > 0 && m2 > 0 && y1 != x, "both calls processed bytes and something was converted");
+    kani::cover!(c < N && m1 < c, "first call left a tail that the second call re-examined");
+}
+
+//@ {"name":"c07c_bcj_kernel_split_x86","props":["C07","C11"],"obligation":"C07-C","timeout":2400,"mem_gb":9,"functions":["filter::bcj::BCJFilter::x86_code","filter::bcj::BCJFilter::code"],"bounds":"any 10 bytes x any u32 start offset x both directions; first call covers 5..=10 bytes (symbolic); unwind 12","assumes":[]}
+#[kani::proof]
+#[kani::unwind(12)]
+fn c07c_bcj_kernel_split_x86() { bcj_kernel_split::<10>(Arch::X86, 5); }
+
+//@ {"name":"c07c_bcj_kernel_split_arm","props":["C07","C11"],"obligation":"C07-C","timeout":1500,"functions":["filter::bcj::BCJFilter::arm_code"],"bounds":"any 12 bytes x any 4-aligned u32 start offset x both directions; first call covers 4..=12 bytes; unwind 14","assumes":[]}
+#[kani::proof]
+#[kani::unwind(14)]
+fn c07c_bcj_kernel_split_arm() { bcj_kernel_split::<12>(Arch::Arm, 4); }
+
+//@ {"name":"c07c_bcj_kernel_split_riscv","props":["C07","C11"],"tier":"thorough","obligation":"C07-C","timeout":3600,"mem_gb":9,"functions":["filter::bcj::BCJFilter::riscv_code"],"bounds":"any 16 bytes x any 2-aligned u32 start offset x both directions; first call covers 8..=16 bytes; unwind 18","assumes":[]}
+#[kani::proof]
+#[kani::unwind(18)]
+fn c07c_bcj_kernel_split_riscv() { bcj_kernel_split::<16>(Arch::Riscv, 8); }
